@@ -273,6 +273,136 @@ Example c06_history_nonvacuous :
          h_file := [97;98]%N |}.
 Proof. split; [vm_compute; reflexivity|]. split; [repeat constructor|vm_compute; reflexivity]. Qed.
 
+(* ===================== round 5 (coverage): write notification, remove_after, compressed jobs =====================
+   The op alphabet of the histories (hop) now also has HNotify n = the REAL write notification of the watcher
+   (processNotification -> refreshFile -> checkFileWasTruncated -> tryResumeJobAndUnlock, then the pass) and HMaintExp n =
+   the maintenance tick with remove_after expired; no_trunc ops admits both, so every c06_history_* theorem above holds
+   for histories that contain them at any position. *)
+
+(* --- a write notification on a file that was not truncated below the read position is exactly a worker pass ------ *)
+Theorem c06_write_notification_is_a_pass :
+  forall c rd hs n, cur (h_job hs) <= len (h_file hs) ->
+  h_step c rd (HNotify n) hs = h_step c rd (HPass n) hs.
+Proof. exact notify_is_pass. Qed.
+Print Assumptions c06_write_notification_is_a_pass.
+
+(* --- truncation below the read position seen by the write notification: the job restarts at 0 WITHOUT the old tail
+   and the same pass delivers the whole new content: every line once, whole, in order, with its offset; curOffset = the
+   new size; the tail stands for the new unterminated remainder ---------------------------------------------------- *)
+Theorem c06_truncation_notify_rereads :
+  forall c rd hs n, 0 <= wmax c -> rd_sound rd ->
+  h_deleted hs = false -> len (h_file hs) < cur (h_job hs) ->
+  let '(r, E, hs') := h_step c rd (HNotify n) hs in
+  let sk := skip (h_job hs) in
+  r = None /\ h_file hs' = h_file hs /\ h_done hs' = true
+  /\ cur (h_job hs') = len (h_file hs)
+  /\ Forall2 (emitR c) E (spec_emits c sk 0 (h_file hs))
+  /\ skip (h_job hs') = sk && negb (has_line (h_file hs))
+  /\ accR c (snd (split_lines (h_file hs))) (tail (h_job hs')).
+Proof. exact hist_truncation_notify_rereads. Qed.
+Print Assumptions c06_truncation_notify_rereads.
+
+(* --- remove_after expired: the tick hands nothing to In and deletes an idle job (its file is removed) whether or not
+   an unterminated tail is held back; a job that is not done or whose file changed size is handled as by the ordinary
+   tick (left alone / read first) ---------------------------------------------------------------------------------- *)
+Theorem c06_remove_after_tick_deletes_idle :
+  forall c rd hs n,
+  h_done hs = true -> h_deleted hs = false -> len (h_file hs) = cur (h_job hs) ->
+  h_step c rd (HMaintExp n) hs =
+  (Some 3, [], {| h_job := h_job hs; h_done := true; h_deleted := true; h_moved := h_moved hs; h_file := h_file hs |}).
+Proof. exact maint_exp_removes_idle. Qed.
+Print Assumptions c06_remove_after_tick_deletes_idle.
+
+Theorem c06_remove_after_tick_reads_first :
+  forall c rd hs n,
+  h_deleted hs = false -> (h_done hs = false \/ len (h_file hs) <> cur (h_job hs)) ->
+  h_step c rd (HMaintExp n) hs = h_step c rd (HMaint n) hs.
+Proof. exact maint_exp_reads_first. Qed.
+Print Assumptions c06_remove_after_tick_reads_first.
+
+(* --- compressed (lz4) jobs: the skip loop of a resumed job stops at a position that is not behind the minimum saved
+   offset m and leaves exactly the rest of the content to the pass (m inside the content; lz4_skip is called with
+   L = 0 = len [] and the whole content) ---------------------------------------------------------------------------- *)
+Theorem c06_lz4_skip_stops_before_offset :
+  forall n m, 1 <= n -> forall fuel pre rest,
+  (length rest < fuel)%nat -> len pre <= Z.max 0 m -> m <= len pre + len rest ->
+  exists pre' rest', lz4_skip fuel n m (len pre) rest = (len pre', rest')
+                     /\ pre ++ rest = pre' ++ rest' /\ len pre' <= Z.max 0 m.
+Proof. exact lz4_skip_spec. Qed.
+Print Assumptions c06_lz4_skip_stops_before_offset.
+
+(* --- resume of a compressed job from ANY position L = len pre1 not behind the saved offset m = len (pre1 ++ pre2), m a
+   line end of the file, every split of the rest into reads: what is handed over with an offset behind m is exactly
+   the list of the lines of the whole file that end behind m, each with its offset in the decompressed stream; with
+   the lines up to m (delivered before the restart) this is the line list of the whole file ----------------------- *)
+Theorem c06_lz4_resume_exact :
+  forall pre1 pre2 b reads,
+  snd (split_lines (pre1 ++ pre2)) = [] -> concat reads = pre2 ++ b ->
+  let m := len (pre1 ++ pre2) in
+  let E := fst (round nolimit (st_at (len pre1) false) reads) in
+  filter (fun e : emit => m <? fst e) E = with_off m (fst (split_lines b))
+  /\ with_off 0 (fst (split_lines (pre1 ++ pre2 ++ b)))
+     = with_off 0 (fst (split_lines (pre1 ++ pre2))) ++ with_off m (fst (split_lines b)).
+Proof. exact lz4_resume_exact. Qed.
+Print Assumptions c06_lz4_resume_exact.
+
+(* --- the model of the whole compressed pass (skip loop + reads of the buffer size), every content, every buffer size,
+   every list of saved stream offsets whose minimum m is a line end inside the content --------------------------- *)
+Theorem c06_lz4_pass_exact :
+  forall n content offs (o : Z),
+  (0 < n)%nat -> let m := min_list o offs in
+  0 <= m <= len content -> snd (split_lines (take m content)) = [] ->
+  let k := {| z_cfg := nolimit; z_offs := o :: offs; z_frames := [content]; z_n := n |} in
+  let '(L, es, st) := z_pass k in
+  0 <= L <= m
+  /\ filter (fun e : emit => m <? fst e) es = with_off m (fst (split_lines (drop m content)))
+  /\ with_off 0 (fst (split_lines content))
+     = with_off 0 (fst (split_lines (take m content))) ++ with_off m (fst (split_lines (drop m content))).
+Proof. exact lz4_pass_exact. Qed.
+Print Assumptions c06_lz4_pass_exact.
+
+(* --- end to end (which 8: the real Pipeline.In behind the worker): what reaches the OUTPUT are exactly the admitted
+   complete lines of the content, every configuration, start offset, pass and read structure; events_of = what
+   checkInputBytes + the raw decoder make of a delivered (offset, data): (offset, admitted bytes without the newline,
+   cut flag), nothing for a rejected line ------------------------------------------------------------------------ *)
+Theorem c06_events_do_not_depend_on_the_stand_in :
+  forall c E E', 0 <= wmax c -> Forall2 (emitR c) E E' -> events_of c E = events_of c E'.
+Proof. exact events_of_emitR. Qed.
+Print Assumptions c06_events_do_not_depend_on_the_stand_in.
+
+Theorem c06_worker_events :
+  forall c o sk0 rs, 0 <= wmax c ->
+  events_of c (fst (rounds c (st_at o sk0) rs)) = events_of c (spec_emits c sk0 o (flat rs)).
+Proof. exact worker_events. Qed.
+Print Assumptions c06_worker_events.
+
+Theorem c06_event_of_a_line :
+  forall c o l0, 0 <= wmax c -> noNL l0 ->
+  events_of c [(o, l0 ++ [NL])] =
+  match l0 with
+  | [] => []
+  | _ :: _ =>
+      if check_max c && (len l0 + 1 >? wmax c)
+      then (if wcut c then [(o, firstn (Z.to_nat (wmax c)) l0, true)] else [])
+      else [(o, l0, false)]
+  end.
+Proof. exact events_of_line. Qed.
+Print Assumptions c06_event_of_a_line.
+
+(* non-vacuity: "ab\ncd" | pass | truncate to 1 | write notification (detects, restarts at 0, reads "a" into the tail in
+   the same step) | "\n" | remove_after tick on the grown file (reads "a\n"@2 first) | remove_after tick (idle: deleted);
+   compressed: content "ab\ncd\nef\ngh", saved offsets (6 9), buffer 2: skipping stops at 4, "d\n"@6 is handed over again
+   (dropped by its offset), "ef\n"@9 follows, curOffset counts the 7 bytes read after the skipping *)
+Example c06_round5_nonvacuous :
+  h_run nolimit chunks (h_start 0 false [] false)
+    [HAppend [97;98;10;99;100]%N; HPass 2; HTrunc 1; HNotify 3; HAppend [10]%N; HMaintExp 2; HMaintExp 2]
+    = ([(3, [97;98;10]%N); (2, [97;10]%N)],
+       {| h_job := {| cur := 2; tail := []; skip := false |}; h_done := true; h_deleted := true; h_moved := false;
+          h_file := [97;10]%N |})
+  /\ z_pass {| z_cfg := nolimit; z_offs := [6; 9]; z_frames := [[97;98;10;99]%N; [100;10;101;102;10;103;104]%N]; z_n := 2%nat |}
+    = (4, [(6, [100;10]%N); (9, [101;102;10]%N)], {| cur := 11; tail := [103;104]%N; skip := false |}).
+Proof. split; vm_compute; reflexivity. Qed.
+
 (* non-vacuity: content "ab\n\ncdefg\nh" read from offset 100 in two passes, reads of odd sizes, a line
    split over three reads and two passes; with max = 3: skip mode drops "cdefg\n", cut mode + admission
    delivers "cde\n" flagged, the empty line is delivered by the worker and dropped by checkInputBytes *)
